@@ -306,7 +306,9 @@ func genGRPCTable(t *rapid.T, h *grpcHarness) grpcTable {
 	}
 	for _, cand := range []struct {
 		host, path string
-	}{{"", "/pkg.A/"}, {"beta", "/pkg.A/"}, {"", "/pkg.B/"}, {"", "/pkg.A/Special"}, {"beta", "/pkg.B/"}, {"", "/grpc.health.v1.Health/"}, {"", "/grpc.reflection.v1alpha.ServerReflection/"}} {
+	}{{"", "/pkg.A/"}, {"beta", "/pkg.A/"}, {"", "/pkg.B/"}, {"", "/pkg.A/Special"}, {"beta", "/pkg.B/"}, {"", "/grpc.health.v1.Health/"}, {"", "/grpc.reflection.v1alpha.ServerReflection/"},
+		// a glob host next to the exact one: consulted when the exact host has no route for the method
+		{"b*a", "/pkg.B/"}, {"b*a", "/pkg.C/"}} {
 		if rapid.IntRange(0, 2).Draw(t, "have") > 0 {
 			add(cand.host, cand.path, rapid.IntRange(0, 2).Draw(t, "be"))
 			if rapid.IntRange(0, 3).Draw(t, "second") == 0 {
@@ -338,6 +340,11 @@ func (gt grpcTable) wantBackends(method string, dsthost []string) []int {
 	if host != "" {
 		if be := best(host); be != nil {
 			return be
+		}
+		if host == "beta" { // the only name the glob host pattern b*a matches here
+			if be := best("b*a"); be != nil {
+				return be
+			}
 		}
 	}
 	return best("")
